@@ -9,6 +9,7 @@ Plus histories of key generations.
 """
 from __future__ import annotations
 
+import copy
 import json
 import os
 import subprocess
@@ -58,7 +59,9 @@ print(json.dumps(c18.produce_history(spec, spec["n"])))
 def make_spec(rng: Rng, alg, enc, form) -> dict:
     key, sender = JW.keys_for(rng.sub("key"), alg, enc, rng.pick(JW.CURVES))
     return {"alg": alg, "enc": enc, "form": form, "key": rk.to_jwk(key, True), "sender": rk.to_jwk(sender, True) if sender else None,
-            "zip": rng.chance(0.2), "supply_p2c": alg in rjwe.PBES2 and rng.chance(0.5)}
+            "zip": rng.chance(0.2), "supply_p2c": alg in rjwe.PBES2 and rng.chance(0.5),
+            # the header template was copied from an earlier token: it still carries that token's computed members
+            "stale_template": (alg.endswith("GCMKW") or alg.startswith("ECDH")) and rng.chance(0.35)}
 
 
 MULTI_ALGS = ["ECDH-ES+A128KW", "ECDH-ES+A192KW", "ECDH-ES+A256KW", "ECDH-1PU+A128KW", "ECDH-1PU+A256KW", "A128KW", "A256KW",
@@ -136,19 +139,27 @@ def produce_history(spec: dict, n: int) -> list:
     alg, enc, form = spec["alg"], spec["enc"], spec["form"]
     with warnings.catch_warnings():
         warnings.simplefilter("ignore")
+        stale = {}
         for i in range(n):
             hdr = {"alg": alg, "enc": enc}
             if spec["zip"]:
                 hdr["zip"] = "DEF"
             if spec["supply_p2c"]:
                 hdr["p2c"] = 1
+            hdr.update(copy.deepcopy(stale))
             if form == "compact":
                 out.append(jwe.encrypt_compact(hdr, b"same plaintext", jkey, registry=reg, sender_key=sender))
+                if spec.get("stale_template") and not stale:
+                    h0 = json.loads(b64.dec(out[-1].split(".")[0]))
+                    stale = {k: h0[k] for k in ("iv", "tag", "epk") if k in h0}
             else:
                 cls = jwe.FlattenedJSONEncryption if form == "flattened" else jwe.GeneralJSONEncryption
                 o = cls({k: v for k, v in hdr.items() if k in ("enc", "zip")}, b"same plaintext")
                 o.add_recipient({k: v for k, v in hdr.items() if k not in ("enc", "zip")}, jkey)
                 out.append(jwe.encrypt_json(o, None, registry=reg, sender_key=sender))
+                if spec.get("stale_template") and not stale:
+                    r0 = out[-1]["recipients"][0] if "recipients" in out[-1] else out[-1]
+                    stale = {k: r0["header"][k] for k in ("iv", "tag", "epk") if k in (r0.get("header") or {})}
     return out
 
 
